@@ -766,10 +766,56 @@ def initDefaults (p : ProvCfg) : Option ProvCfg :=
   else if p.minKeyLen % 8 ≠ 0 then none
   else some { p with minKeyLen := if p.minKeyLen = 0 then 2048 else p.minKeyLen }
 
+/-! #### the provisioner's own key material (`Init`: `DecrypterKeyPEM`, `DecrypterKeyURI`, `DecrypterCertificate`) -/
+
+/-- Which key (an opaque identity) each of the three configuration fields holds: the key the
+    decrypter certificate certifies, the key in `decrypterKeyPEM`, the key `decrypterKey` (a KMS URI)
+    names. -/
+structure KeyCfg where
+  cert : Option Nat
+  pem : Option Nat
+  uri : Option Nat
+  deriving Repr, DecidableEq
+
+/-- What `Init` leaves in the provisioner: `decrypter`, `signer`, `decrypterCertificate`
+    (= `signerCertificate`). -/
+structure KeyState where
+  decrypter : Option Nat
+  signer : Option Nat
+  cert : Option Nat
+  deriving Repr, DecidableEq
+
+/-- `Init`: the PEM key, when present, becomes decrypter and signer; the URI key, when present,
+    becomes decrypter and signer (it wins over the PEM); then the final validation: a decrypter needs
+    a certificate, and the certificate must certify the decrypter's key (`none`: `Init` fails). -/
+def initKeys (k : KeyCfg) : Option KeyState :=
+  let afterPem : Option Nat × Option Nat := (k.pem, k.pem)
+  let (d, sg) : Option Nat × Option Nat :=
+    match k.uri with
+    | some u => (some u, some u)
+    | none => afterPem
+  match d with
+  | none => some { decrypter := none, signer := sg, cert := k.cert }
+  | some dk =>
+    match k.cert with
+    | none => none
+    | some c => if dk = c then some { decrypter := d, signer := sg, cert := k.cert } else none
+
+/-- the key pair the selection switches of the SCEP authority see -/
+def KeyState.pair (st : KeyState) : KeyPair := { cert := st.cert.isSome, key := st.decrypter.isSome }
+
+/-- the signature of a CertRep made with the provisioner's own pair verifies under the certificate
+    the reply names (the decrypter certificate) iff the signing key is the certified key -/
+def KeyState.signatureVerifies (st : KeyState) : Bool := st.signer == st.cert
+
 /-- What `lookupProvisioner` finds for a name that resolves to this configuration: a provisioner
     `Init` refused is a `provisioner.Uninitialized`, not a `*provisioner.SCEP`. -/
 def lookupOf (found : Lookup) (p : ProvCfg) : Lookup :=
   if found = .scep ∧ (initDefaults p).isNone then .otherType else found
+
+/-- the same, taking the key material into account -/
+def lookupOfKeys (found : Lookup) (p : ProvCfg) (k : KeyCfg) : Lookup :=
+  if found = .scep ∧ (initKeys k).isNone then .otherType else lookupOf found p
 
 /-- the field tables of the four conversion functions (destination field ← source expression),
     re-extracted from the source on every run -/
@@ -805,6 +851,38 @@ def optionsToCertificatesShape : String := "loop:p.Webhooks->webhookToCertificat
 def webhookToCertificatesFields : List (String × String) :=
   [("ID", "wh.Id"), ("Name", "wh.Name"), ("URL", "wh.Url"), ("Kind", "wh.Kind.String()"), ("Secret", "wh.Secret"),
    ("DisableTLSClientAuth", "wh.DisableTlsClientAuth"), ("CertType", "wh.CertType.String()")]
+
+/-! ### the running CA: two listeners, `Reload` (ca/ca.go `Run`, `Reload`)
+
+  `Init` builds the TLS server and — when an insecure address is configured — the plain-HTTP server,
+  both with the base context of the authority just built. `Reload` (SIGHUP) builds a new CA from the
+  configuration file and hands the new servers to the running ones. -/
+
+inductive Listener where
+  | tls | insecure
+  deriving Repr, DecidableEq
+
+/-- what each listener of a running CA serves (`α`: the configuration / authority behind it) -/
+structure Running (α : Type) where
+  tls : α
+  insecure : Option α
+
+def caStart {α : Type} (cfg : α) (hasInsecure : Bool) : Running α :=
+  { tls := cfg, insecure := if hasInsecure then some cfg else none }
+
+/-- `(*CA).Reload`: `ca.insecureSrv.Reload(newCA.insecureSrv)` when there is an insecure server,
+    `ca.srv.Reload(newCA.srv)` always -/
+def caReload {α : Type} (new : α) (r : Running α) : Running α :=
+  { tls := new, insecure := r.insecure.map fun _ => new }
+
+def Running.served {α : Type} (r : Running α) : Listener → Option α
+  | .tls => some r.tls
+  | .insecure => r.insecure
+
+/-- the servers `Reload` replaces, with the condition under which it does (re-extracted from the
+    source on every run) -/
+def reloadsAsCoded : List (String × String) :=
+  [("insecureSrv", "ca.insecureSrv!=nil"), ("metricsSrv", "ca.metricsSrv!=nil"), ("srv", "")]
 
 /-! ### the names of the issued certificate (scep/authority.go `SignCSR`, default leaf template)
 
